@@ -383,16 +383,20 @@ func c02Gen(runSeed uint64, tier string) *gen.Scenario {
 }
 
 func c02Configs(e *Env) []c02cfg {
+	// Dispatch throttling is only combined with sequential requests: every Check builds its own
+	// constant-rate throttler (a ticker), so N concurrent requests own N tickers that fire at the same
+	// virtual instant, and the order in which the runtime's timer heap pops equal deadlines did not
+	// replay (measured). Concurrency and throttling are each covered, not their product.
 	r := e.Run
 	cfgs := []c02cfg{
 		{name: "default", plan: simstore.PlanDefault, breadth: 25, loEngine: 0},
 		{name: "fast", plan: simstore.PlanFast, breadth: 25, loEngine: 1, opt: 1},
 		{name: "mixed1", plan: simstore.PlanPerCall, breadth: 2, maxReads: 1, loEngine: 2, chunk: 1, buf: 2, proc: 1},
-		{name: "mixed2", plan: simstore.PlanHash, breadth: 1, maxReads: 2, loEngine: 3, chunk: 2, buf: 4, proc: 3, throttle: true},
+		{name: "mixed2", plan: simstore.PlanHash, breadth: 1, maxReads: 2, loEngine: 3, chunk: 2, buf: 4, proc: 3, throttle: e.Sc.Knob("conc", 1) <= 1},
 	}
 	// seed-dependent order and one extra random configuration
 	x := c02cfg{name: "rand", plan: int64(r.Pick(4, "c02", "plan")), breadth: []int64{1, 2, 25}[r.Pick(3, "c02", "b")], maxReads: int64(r.Pick(3, "c02", "mr")),
-		loEngine: int64(r.Pick(4, "c02", "lo")), chunk: int64(r.Pick(3, "c02", "ch")), buf: []int64{0, 2, 8}[r.Pick(3, "c02", "bu")], proc: int64(r.Pick(4, "c02", "np")), opt: int64(r.Pick(2, "c02", "opt")), throttle: r.Pick(2, "c02", "th") == 1}
+		loEngine: int64(r.Pick(4, "c02", "lo")), chunk: int64(r.Pick(3, "c02", "ch")), buf: []int64{0, 2, 8}[r.Pick(3, "c02", "bu")], proc: int64(r.Pick(4, "c02", "np")), opt: int64(r.Pick(2, "c02", "opt")), throttle: r.Pick(2, "c02", "th") == 1 && e.Sc.Knob("conc", 1) <= 1}
 	return append(cfgs, x)
 }
 
